@@ -71,8 +71,9 @@ def r04_2(run):
         by.setdefault(s.fi.name, []).append(s)
     for ip, op in INPLACE_PAIRS:
         a, b = by.get(ip, []), by.get(op, [])
-        ca = sorted(s.op_cls.name for s in a if s.op_cls)
-        cb = sorted(s.op_cls.name for s in b if s.op_cls)
+        # as *sets*: one call may serve several paths (virtual sites), several calls may use one operation
+        ca = sorted({s.op_cls.name for s in a if s.op_cls})
+        cb = sorted({s.op_cls.name for s in b if s.op_cls})
         ok = bool(a) and ca == cb and all(s.kind == "_in_place_op" for s in a) and all(s.kind == "_op" for s in b)
         m = T.methods.get(ip)
         run.ob("R04.2", loc(m, m.node) if m else loc(T.module, T.node), f"{TENSOR[7:]}.{ip}", f"{ip} uses the same Operation(s) as {op}, through _in_place_op", ok,
